@@ -12,6 +12,7 @@ mod fam_lr;
 mod fam_min;
 mod fam_re;
 mod fam_store;
+mod fam_str;
 mod rng;
 mod trace;
 
@@ -47,6 +48,7 @@ fn main() {
         "cp" => fam_cp::run(&mut t, &mut rng, thorough),
         "min" => fam_min::run(&mut t, &mut rng, thorough),
         "re" => fam_re::run(&mut t, &mut rng, thorough),
+        "str" => fam_str::run(&mut t, &mut rng, thorough),
         _ => {
             eprintln!("unknown family {}", family);
             std::process::exit(2);
